@@ -18,10 +18,15 @@ Definition wf_cfg (c : fcfg) : bool :=
 (* ----------------------------------------------------------------- the specification
    Per model: its state, the number of consecutive entries into that state (the
    first one, from elsewhere, included), and the object created at its latest entry. *)
-Record smodel : Type := mkSM { sp_state : fstate_id; sp_streak : nat; sp_obj : option nat }.
+Record smodel : Type := mkSM {
+  sp_state : fstate_id; sp_streak : nat; sp_obj : option nat;
+  sp_pre : fhook -> option nat     (* instance attributes set before the machine was attached, still there *)
+}.
 Record sworld : Type := mkSW { sw_m : fmodel -> smodel; sw_n : nat (* objects created so far *) }.
 
-Definition spec_init (s0 : fstate_id) : sworld := mkSW (fun _ => mkSM s0 0 None) 0.
+Definition spec_init (s0 : fstate_id) : sworld := mkSW (fun _ => mkSM s0 0 None (fun _ => None)) 0.
+Definition spec_init_p (s0 : fstate_id) (pre : fmodel -> fhook -> option nat) (k : nat) : sworld :=
+  mkSW (fun m => mkSM s0 0 None (pre m)) k.
 
 (* Error: the state has no outgoing transition and is not accepted
    (accepted=True or the tag 'accepted') *)
@@ -50,7 +55,9 @@ Definition spec_step (c : fcfg) (sw : sworld) (m : fmodel) (e : fevent)
              (if err then [] else if exhausted then fail_items c m d else enter_items c m d),
            mkSW (upd (sw_m sw) m
                      (mkSM d (if exhausted then k else S k)
-                           (if has_volatile o then Some (sw_n sw) else None)))
+                           (if has_volatile o then Some (sw_n sw) else None)
+                           (* leaving s deletes whatever instance attribute bears its hook name *)
+                           (if has_volatile o then upd (sp_pre x) (fs_hook (sdef c s)) None else sp_pre x)))
                 (if has_volatile o then S (sw_n sw) else sw_n sw),
            if err then RExn EMachine else RTrue)
       end
@@ -64,11 +71,12 @@ Fixpoint spec_run (c : fcfg) (sw : sworld) (h : list (fmodel * fevent))
   end.
 
 (* what a model is expected to hold: under the hook name of its current state the object
-   created at its latest entry, nothing under any other name *)
+   created at its latest entry — whatever was under that name before —, under any other
+   name nothing but what it carried from the start and no exit has removed *)
 Definition spec_hooks (c : fcfg) (x : smodel) : fhook -> option nat :=
   fun h => match sp_obj x with
-           | Some o => if Nat.eqb h (fs_hook (sdef c (sp_state x))) then Some o else None
-           | None => None
+           | Some o => if Nat.eqb h (fs_hook (sdef c (sp_state x))) then Some o else sp_pre x h
+           | None => sp_pre x h
            end.
 
 (* ----------------------------------------------------------------- guards *)
